@@ -490,6 +490,11 @@ func (p *PHYPayload) DecodeFRMPayloadToMACCommands() error {
 		return nil
 	}
 
+	// mac-commands are only carried in the FRMPayload when FPort=0
+	if macPL.FPort == nil || *macPL.FPort != 0 {
+		return errors.New("lorawan: the FRMPayload only contains mac-commands when FPort=0")
+	}
+
 	// on an error the FRMPayload stays as it was
 	cmds, err := decodeDataPayloadToMACCommands(p.isUplink(), macPL.FRMPayload)
 	if err != nil {
